@@ -372,7 +372,7 @@ func (p *AV1Packet) parseBody(payload []byte) ([][]byte, error) {
 		}
 
 		// If W bit is set the last OBU Element will have no length header
-		if byte(i) == p.W {
+		if p.W != 0 && i == int(p.W) {
 			bytesRead = 0
 			obuElementLength = uint(len(payload)) - currentIndex
 		} else {
